@@ -155,6 +155,8 @@ type SolverResult struct {
 	Solver  string
 	Seconds float64
 	Output  string
+	K, Mode int  // slice level and query variant that produced the answer (ladder only)
+	Ladder  bool // produced by the ladder (K and Mode are meaningful)
 }
 
 type solverDef struct {
